@@ -16,9 +16,18 @@ CFG = dict(
          "bool, Option<bool>, i32 0/1, f64 0/1/NaN, unequal lengths; booleans: all Option<bool> series up to length 5 (7) + "
          "random. Counts, indices, extrema, sums, first/last are compared exactly; mean/var/std/cov/masked mean within 1e-9 "
          "and skew/kurt/corr within 1e-7 of the model evaluated in Coq's binary64 (f32 output 1e-6), nullness exact. "
-         "A case is non-trivial when the series is non-empty (nt=0 otherwise).",
+         "A case is non-trivial when the series is non-empty (nt=0 otherwise). "
+         "Audit additions (exact comparison): group number = Number::{min_with, max_with, floor, ceil, abs, n_add, n_prod, kh_sum} on all ordered "
+         "pairs of 18 f64 specials (both NaN signs, +-inf, +-0, 2^52+1, +-2.5e15+-0.5, +-1e300, 5e-324, MAX) with series on which Kahan's "
+         "compensation matters, 300 (1500) random dyadic / decimal / mixed-magnitude cases, f32, i32, i64, u64, usize; number_range = min_ / max_ "
+         "of the six types; group casts = Number::{to, fromas} between f64 / f32 / i32 / i64 / usize on 16 floats x 10 integers (NaN, +-inf, out of "
+         "range, 2^24+1, 2^53+1) against the C15 cast model; groups vfold2 / vapply = IterBasic::{vfold2, vapply} with order-sensitive callbacks, "
+         "exhaustive over {-1,0,2,null} up to 3 x 3 + random, f64 / Option<f64> / mixed, unequal lengths; group zero_sign = sign bit of vmin / vmax "
+         "over {+0,-0,NaN,1,-1} up to length 3.",
     theorem_hint="Props/C11.v: C11_* (counts, first/last, any/all, sum, mean, var/std, skew, kurt, extrema, arg-extrema, "
-                 "masked, cov, corr, nullness, permutation invariance)",
+                 "masked, cov, corr, nullness, permutation invariance); audit (A1)-(A8): C11_number_*, C11_vfold2, C11_vapply, "
+                 "C11_arg_points_at_extreme_unconditional, C11_*_ordered_carrier, C11_*_binary64, C11_perm_extrema_bitwise_refuted, "
+                 "C11_plain_*, C11_two_series_truncate, C11_masked_perm_*, C11_null_below_*, C11_valid_nan_poisons",
     level_text="Proof (Coq): the one-pass folds of agg.rs / tea-agg (Model/Agg.v, written once over the numeric carrier and the "
                "null dictionary) are proved equal to the textbook definitions over the non-null elements for every input: "
                "exact equalities over option R for sum, mean, sample variance / std (EPS floor explicit and bounded), adjusted "
@@ -40,7 +49,27 @@ CFG = dict(
                "exactness on a grid, an ABSOLUTE bound for the population variance) and which are false without the condition "
                "number (relative bounds for the closed forms under cancellation, stability of the EPS branch); there rounding "
                "remains the comparator tolerance. "
-               "The model is tied to the code by ~100k differential cases per run through every iterator source. "
+               "Audit (notes/C11.md, matrix clause x theorem; 49 more theorems): the Number helpers of number.rs are modelled (Model/AggNumber.v) and "
+               "characterised — n_add / n_prod (a null `other` is skipped, `self` never inspected; folding them is the vsum fold, so the rounding bound "
+               "(R2) covers it), Kahan's kh_sum (compensation identically 0 and sum = plain sum on Z and option R; no null test: one NaN poisons sum "
+               "and compensation; at binary64 the step operation by operation and a witness that the compensation is effective), floor / ceil "
+               "(identity on integers; integer-valued with f <= x < f+1 on reals, null stays null), min_with / max_with on EVERY operand (Rmin / Rmax / "
+               "Z.min / Z.max; a NaN `other` is ignored, a NaN `self` stays — also at binary64), to / fromas (= the Cast of C15); vfold2 (= fold over the "
+               "pairwise-complete pairs, zip truncation) and vapply. Extrema and first arg-extrema hold over every strict WEAK order (OrdLaws: reals, "
+               "integers, binary64 with +0 / -0) instead of a strict total one, with binary64 instances for f64 and canonical Option<f64>; that the "
+               "arg-extreme indexes a valid element holding exactly the value vmin / vmax return (and is None iff there is no valid element) needs NO "
+               "order hypothesis at all. Permutation invariance of vmin / vmax at binary64 holds up to == and is REFUTED bit for bit ([+0; -0] vs [-0; +0], "
+               "C11_perm_extrema_bitwise_refuted; the witness is replayed on the code on every run, group zero_sign) — compatible with DESIGN 5.1. "
+               "The plain family is described totally (first / last / n_sum on every carrier, integer and real arg-extrema incl. argmax, min / max on "
+               "input WITH NaN: a leading NaN is returned, a later one skipped). Zip truncation of two-series and masked functions; permutation "
+               "invariance of the masked sum / mean. 'Null when fewer than the required number of valid observations' (the if-direction) for EVERY "
+               "carrier, dictionary and cast with no canonical-null hypothesis, incl. binary64 and min_periods above the length; the converse stays "
+               "carrier specific (option R). What a valid NaN (Some(NaN), excluded by DESIGN 5.4) does: counted as an observation, poisons sum / "
+               "mean / variance (C11_valid_nan_poisons). The executable f64::floor / ceil of the run (no primitive in Coq's float) is proved to be the "
+               "mathematical floor / ceiling of the real value for every finite float (C11_f64_floor_is_floor, C11_f64_ceil_is_ceil; Flocq). "
+               "Still open after the audit: a rounding bound for kh_sum at binary64 (only a witness that the compensation works), valid-NaN "
+               "behaviour of skew / kurt / cov / corr. "
+               "The model is tied to the code by ~130k differential cases per run through every iterator source. "
                "Second, static tie (translator): on every run the guards of vsum / vmean / vmean_var / vvar / vstd / vskew / vkurt / vcov / vcorr_pearson / n_sum_filter / vmean_filter (comparison operator, constant, side of EPS, the max_with(2) floor) and the EPS literal are re-extracted from the Rust source text and Proofs/SrcTablesAgg.v re-proves, for every series and min_periods, that Model/Agg.v makes exactly those decisions (src_*_conforms).",
     src_tables=True,   # tools/gen_tables.py + Proofs/SrcTablesAgg.v: decision tables regenerated from the Rust source on every run
     src_tables_proofs=["Proofs/SrcTablesAgg.vo"],
